@@ -12,10 +12,13 @@ def run(prog, rep, tier):
                   "dwarf_getlocations (lists of 0-3 entries with ordinary, empty and 0..-1 ranges and 0-3 operations each): every entry libdw "
                   "serves is yielded once, in stored order, numbered from 0, with its own range and operations; length = number of elem results; "
                   "relem = elem reversed; offset/label report the stored offset/opcode in their domains; ?OP_x holds iff some operation has the "
-                  "opcode; address is exactly the range.")
+                  "opcode; address is exactly the range; X4: `abbrev entry` (dwarf_getabbrev's offset/length/end-sentinel protocol), `attribute`, `code`, "
+                  "`label`, `offset`, `form`, `?haschildren`, `?AT_x` on abbreviations, interpreted against abstract tables of 0-3 abbreviations with "
+                  "0-2 attributes: every abbreviation and attribute exactly once, in order, numbered from 0, with the stored fields.")
     rep.not_decided = ("what libdw itself returns for a given file; abbreviation/DIE agreement (dwpp_abbrev_offset reads a libdw-private layout).")
     rep.assumptions.append("DWARF 5 section 7.7.1 operand table as transcribed in rules/r_tables.py (OP_TABLE); size+block operands count as one value")
     apply(rep, "X1", "operand decoding covers every DW_OP of dwarf.h", r_tables.x1(prog), 150)
     apply(rep, "U2", "seen-lists that are binary-searched are kept sorted", r_tables.u2(prog), 2)
     apply(rep, "X3", "location-list elements, their operations and the words on them (source evaluation against an abstract libdw)", r_dw.x3(prog, tier), 9)
+    apply(rep, "X4", "abbreviation tables and the words on abbreviations (source evaluation against an abstract libdw)", r_dw.x4(prog), 10)
     maybe_mutants("C17", rep, tier)
